@@ -307,8 +307,8 @@ impl PhoneticSuggestion {
                         }
                         selected.push_str(suffix);
 
-                        // Save this for future reuse.
-                        selections.insert(string.word().to_string(), selected.to_string());
+                        // The derived selection is not saved: it has to follow the selection of the
+                        // base word when the user changes that afterwards.
                         // The selection is found, another base + suffix split must not be appended to it.
                         break;
                     }
